@@ -7,8 +7,8 @@ From Cambrian Require Import Base.F64 SourceFacts Syntax Ops.
 Import ListNotations.
 
 Definition fb (z : Z) : f64 := of_bits z.
-Definition bs (l : list N) : string :=
-  fold_right (fun n s => String (ascii_of_N n) s) EmptyString l.
+Definition bs (l : list nat) : string :=
+  fold_right (fun n s => String (ascii_of_nat n) s) EmptyString l.
 
 Inductive op :=
 | OMut (src : nat) (mp ms : f64) (out : value)
